@@ -16,7 +16,9 @@ CLAIM = dict(
          "eigenvalue's multiplicity doubles; the Data_K_soc assembly without SOC is permutation-similar to "
          "Hup(+)Hdown, charpoly = product, roots = union with multiplicities; for every phase function chi, every "
          "merged list containing the three R lists (which may all differ) the k-sum of get_system_R's Ham equals "
-         "Ham_SOC(k) + interlace(Hup(k), Hdown(k)) (same for the other matrices); for c^2+s^2=1, |e|=1 in any field "
+         "Ham_SOC(k) + interlace(Hup(k), Hdown(k)) (same for the other matrices; non-magnetic case nspin=1: both blocks are "
+         "the spin-up system WITHOUT conjugation, k-sum = Ham_SOC(k) + double_spin(Hup(k)), and the variant that "
+         "conjugates the down block is proved wrong); for c^2+s^2=1, |e|=1 in any field "
          "with conjugation (instantiated for the complex numbers and every theta, phi): C_ss is unitary, the rotated "
          "matrices are Hermitian, obey sigma_a sigma_b = delta_ab + i eps_abc sigma_c, and n.sigma' = diag(1,-1) with "
          "n = (sin(theta)cos(phi), sin(theta)sin(phi), cos(theta)); the SOC Hamiltonian blocks assembled by "
@@ -40,7 +42,8 @@ TRUSTED = [
 ]
 RULE = ("integer (complex-integer) matrices of size 1-5 with 1-9 R-vectors; up/down R-sets equal, nested, overlapping "
         "and disjoint; Pythagorean angles incl. 0 and pi; random float systems from the repository's generator at "
-        "random k.  non-trivial = at least 2 Wannier functions per spin and at least 2 R-vectors (or a non-axis "
+        "random k (oracle systems are generic: complex Hermitian hoppings with E(k) != E(-k), counted; nspin 1 and 2 "
+        "alternate).  non-trivial = at least 2 Wannier functions per spin and at least 2 R-vectors (or a non-axis "
         "angle); distinct = distinct (operation, inputs)")
 
 PYTH = [(3, 4, 5), (5, 12, 13), (8, 15, 17), (7, 24, 25), (20, 21, 29), (1, 0, 1), (0, 1, 1)]
@@ -243,15 +246,23 @@ def corr(ctx):
         AAu = cint(rng, (len(l1), n, n, 3))
         AAd = cint(rng, (len(l2), n, n, 3))
         alpha = Fr(rng.randint(-8, 8), 4)
-        case = dict(n=n, l0=l0, l1=l1, l2=l2, Hu=Hu, Hd=Hd, d00=d00, d11=d11, d01=d01, alpha=float(alpha))
+        nspin = rng.choice([1, 2])
+        if nspin == 1:
+            # non-magnetic case (system_down=None): the down channel IS the up channel (no conjugation), and the SOC
+            # blocks are all built from dV_soc_wann_0_0
+            l2, Hd, AAd = l1, Hu, AAu
+            d11 = d00
+            d01 = d00
+        ctx.count(f"corr.sysR.nspin={nspin}")
+        case = dict(n=n, nspin=nspin, l0=l0, l1=l1, l2=l2, Hu=Hu, Hd=Hd, d00=d00, d11=d11, d01=d01, alpha=float(alpha))
         with ctx.attempt("get_system_R", case):
             with quiet():
                 up = make_system(eye, l1, np.zeros((n, 3)), dict(Ham=Hu, AA=AAu))
-                dn = make_system(eye, l2, np.zeros((n, 3)), dict(Ham=Hd, AA=AAd))
+                dn = make_system(eye, l2, np.zeros((n, 3)), dict(Ham=Hd, AA=AAd)) if nspin == 2 else None
                 soc = make_soc(up, dn, l0, dict(dV_soc_wann_0_0=d00, dV_soc_wann_1_1=d11, dV_soc_wann_0_1=d01,
                                                 overlap_up_down=ov), theta=0.0, phi=0.0, alpha=float(alpha))
                 sR = soc.get_system_R()
-                merged_rv, maps = merge_Rvectors([soc.rvec, up.rvec, dn.rvec])
+                merged_rv, maps = merge_Rvectors([soc.rvec, up.rvec, (dn if dn is not None else up).rvec])
             Hsoc = soc.get_R_mat("Ham_SOC")
             # (a) the SOC Hamiltonian blocks at theta = phi = 0 (Pauli matrices exact): model vs code, every R
             idx0 = {tuple(R): i for i, R in enumerate(l0)}
@@ -438,13 +449,19 @@ def oracle_double(ctx, scale, rs):
 def rand_soc_setup(rs, with_soc, nspin=None, same_R=None):
     """random up/down systems (float) + optional random Hermitian SOC data; returns (soc, up, dn, info)"""
     from ..wbsys import rand_system, rand_lattice
-    nw = int(rs.randint(1, 5))
-    nspin = nspin or int(rs.choice([1, 2, 2, 2]))
+    nw = int(rs.randint(1, 5)) if rs.rand() < 0.3 else int(rs.randint(2, 5))
+    nspin = nspin or int(rs.choice([1, 2]))
     L = rand_lattice(rs)
     same_R = (rs.rand() < 0.3) if same_R is None else same_R
     with quiet():
-        up = rand_system(rs, num_wann=nw, nR=int(rs.randint(1, 8)), max_R=int(rs.randint(1, 3)), lattice=L,
-                         matrices=("Ham", "AA"))
+        # generic spin-up system: complex Hermitian hoppings without inversion / time-reversal symmetry, E(k) != E(-k)
+        for attempt in range(4):
+            up = rand_system(rs, num_wann=nw, nR=int(rs.randint(1, 8)) if attempt == 0 and rs.rand() < 0.3 else int(rs.randint(4, 9)),
+                             max_R=int(rs.randint(1, 3)), lattice=L, matrices=("Ham", "AA"))
+            kt = np.array([0.137, 0.291, -0.173])
+            asym = float(np.abs(spectrum(hk_plain(up, kt)) - spectrum(hk_plain(up, -kt))).max())
+            if asym > 1e-3 or attempt == 0 and rs.rand() < 0.15:
+                break
         if nspin == 2:
             if same_R:
                 seed = int(rs.randint(0, 2**31 - 1))
@@ -458,7 +475,7 @@ def rand_soc_setup(rs, with_soc, nspin=None, same_R=None):
                                  matrices=("Ham", "AA"))
         else:
             dn = None
-    info = dict(num_wann=nw, nspin=nspin, same_R=bool(same_R), nR_up=up.rvec.nRvec,
+    info = dict(num_wann=nw, nspin=nspin, same_R=bool(same_R), up_is_generic=bool(asym > 1e-3), nR_up=up.rvec.nRvec,
                 nR_down=(dn.rvec.nRvec if dn is not None else None))
     socmats, iR_soc, theta, phi, alpha = None, None, 0.0, 0.0, 1.0
     if with_soc:
@@ -492,8 +509,8 @@ def oracle_soc(ctx, scale, rs):
         state = rs.get_state()
         case0 = dict(what="SystemSOC without SOC", rs_state_hash=hash(state[1].tobytes()) % 10**9)
         with ctx.attempt("SystemSOC without SOC", case0):
-            soc, up, dn, info = rand_soc_setup(rs, with_soc=False)
-            ctx.count(f"oracle.nosoc.nspin={info['nspin']}.sameR={info['same_R']}")
+            soc, up, dn, info = rand_soc_setup(rs, with_soc=False, nspin=1 + it % 2)
+            ctx.count(f"oracle.nosoc.nspin={info['nspin']}.sameR={info['same_R']}.E(k)!=E(-k):{info['up_is_generic']}")
             for ik in range(2):
                 k = rand_k(rs)
                 case = dict(case0, **info, k=k, Ham_up=up.get_R_mat("Ham"), iR_up=up.rvec.iRvec,
@@ -520,8 +537,8 @@ def oracle_soc(ctx, scale, rs):
         state = rs.get_state()
         case0 = dict(what="SystemSOC.get_system_R", rs_state_hash=hash(state[1].tobytes()) % 10**9)
         with ctx.attempt("SystemSOC.get_system_R", case0):
-            soc, up, dn, info = rand_soc_setup(rs, with_soc=True)
-            ctx.count(f"oracle.soc.nspin={info['nspin']}.sameR={info['same_R']}.nRsoc={info['nR_soc']}")
+            soc, up, dn, info = rand_soc_setup(rs, with_soc=True, nspin=1 + it % 2)
+            ctx.count(f"oracle.soc.nspin={info['nspin']}.sameR={info['same_R']}.E(k)!=E(-k):{info['up_is_generic']}")
             with quiet():
                 sR = soc.get_system_R()
             # real-space Hermiticity of what set_soc_axis assembled: X(-R) = X(R)^dagger
@@ -602,6 +619,25 @@ def oracle_soc(ctx, scale, rs):
                 Hno[1::2, 1::2] = data_k(dn, k).HH_K[0]
             if d > 1e-10 * (1 + np.abs(Hs[1]).max()) or np.abs(Hs[0] - Hno).max() > 1e-10 * (1 + np.abs(Hno).max()):
                 ctx.fail("alpha_soc: H(k) is not H_noSOC + alpha_soc * H_SOC", dict(case0, **info, k=k))
+            # alpha_soc = 0: the derived System_R must have exactly the union of the up and down spectra (nspin = 1: every
+            # spin-up band twice) at a generic k, and H(k) = up (+) down entrywise
+            with quiet():
+                soc.set_soc_axis(theta=info["theta"], phi=info["phi"], alpha_soc=0.0)
+                sR0 = soc.get_system_R()
+            for _ in range(2):
+                k = rs.uniform(-0.5, 0.5, 3)
+                E0 = energies(sR0, k)
+                want = np.sort(np.concatenate([spectrum(hk_plain(up, k)), spectrum(hk_plain(dn, k))]))
+                with quiet():
+                    H0 = data_k(sR0, k).HH_K[0]
+                    Hu, Hd = data_k(up, k).HH_K[0], data_k(dn, k).HH_K[0]
+                d = max(np.abs(H0[0::2, 0::2] - Hu).max(), np.abs(H0[1::2, 1::2] - Hd).max(),
+                        np.abs(H0[0::2, 1::2]).max(), np.abs(H0[1::2, 0::2]).max())
+                sc = 1 + np.abs(want).max()
+                if E0.shape != want.shape or np.abs(np.sort(E0) - want).max() > 1e-10 * sc or d > 1e-10 * sc:
+                    ctx.fail("get_system_R at alpha_soc=0: bands are not the union of the spin-up and spin-down bands "
+                             f"(nspin=1: each spin-up band twice); band diff {np.abs(np.sort(E0) - want).max() if E0.shape == want.shape else 'shape'}, "
+                             f"H(k) block diff {d:.3e}", dict(case0, **info, k=k))
             # spin operator of an nspin=1 SOC system: component along the axis has eigenvalues +-1 at R=0 blocks
             if info["nspin"] == 1:
                 th, ph = info["theta"], info["phi"]
